@@ -61,9 +61,19 @@ def gen_plan(rng, tier):
     elif mode == "crash":
         plan["ops"] = [{"at": round(rng.uniform(0.02, 0.98), 4), "torn": round(rng.uniform(0.02, 0.98), 3)} for _ in range(rng.randint(1, 3))]
     else:
-        plan["ops"] = [{"start_at": round(rng.uniform(0.1, 0.9), 3), "advance_every": rng.choice([1, 1, 2, 3, 5, 8]), "steps": rng.choice([1, 1, 2, 3]),
-                        "after_short": rng.choice([0, 1, 1, 2, 3]), "start_torn": rng.random() < 0.7}]
-        plan["des"]["dense_splits"] = rng.random() < 0.7      # records reach the file in 2-5 pieces: torn states are the rule while the reader runs
+        plan["ops"] = [{"start_at": round(rng.uniform(0.1, 0.9), 3), "advance_every": rng.choice([1, 1, 2, 3, 5, 8, 1000, 1000]), "steps": rng.choice([1, 1, 2, 3]),
+                        "after_short": rng.choice([0, 1, 1, 2, 3]), "start_torn": rng.choice([False, True, True, "field_end", "field_end"]), "fill_after_short": rng.choice([0, 0, 1, 2])}]
+        if plan["ops"][0]["fill_after_short"] and not plan["ops"][0]["after_short"]:
+            plan["ops"][0]["after_short"] = 1
+        if rng.random() < 0.35:
+            # adversary profile: a reader much faster than the writers arrives while the last 1-3 bytes of a field are
+            # missing, and the writer completes that record (and more) right after the reader's short read
+            plan["ops"][0].update({"start_torn": "field_end", "advance_every": 1000, "fill_after_short": rng.choice([1, 1, 2]), "after_short": rng.choice([1, 1, 2]),
+                                   "rounds": rng.choice([3, 6, 10])})      # several reads in one run, each from the next such state
+            plan["des"]["dense_splits"] = True
+            plan["des"]["field_end_tears"] = True
+        if "dense_splits" not in plan["des"]:
+            plan["des"]["dense_splits"] = rng.random() < 0.7      # records reach the file in 2-5 pieces: torn states are the rule while the reader runs
     return plan
 
 
@@ -368,100 +378,130 @@ def execute(plan, ctx):
     # ---- live: the reader races the writers
     op = plan["ops"][0]
     sim.run_until(op["start_at"] * t_end)
-    if op.get("start_torn"):
-        # bias: let the reader start while the last record of some file is only partly on disk
-        for _ in range(60):
-            torn = any(os.path.exists(sim.path(i)) and images[i].complete_before(sim.bytes_written[i]) >= 0 and
-                       sim.bytes_written[i] not in images[i].boundaries() for i in range(len(images)))
-            if torn or not sim.step():
+    def live_round():
+        if op.get("start_torn"):
+            # bias: let the reader start while the last record of some file is only partly on disk ("field_end": with the
+            # last 1-3 bytes of one of its fields still missing - the state in which an unchecked skip goes unnoticed)
+            def torn_at(i):
+                w = sim.bytes_written[i]
+                if not os.path.exists(sim.path(i)) or images[i].complete_before(w) < 0 or w in images[i].boundaries():
+                    return False
+                if op["start_torn"] != "field_end":
+                    return True
+                b = images[i].boundaries()
+                k = images[i].complete_before(w)
+                rel = w - b[k]
+                return k < len(images[i].fields) and any(off + ln - rel in (1, 2, 3) for off, ln, tag in images[i].fields[k])
+            for _ in range(60 if op["start_torn"] != "field_end" else 400):
+                if any(torn_at(i) for i in range(len(images))) or not sim.step():
+                    break
+            if op["start_torn"] == "field_end" and any(torn_at(i) for i in range(len(images))):
+                ctx.probe("live_start_just_before_field_end")
+        if any(not os.path.exists(sim.path(i)) for i in range(len(images))):
+            ctx.probe("live_before_all_files_exist")
+            return
+        state = {"reads": 0, "open_len": {}, "close_len": {}}
+        name_to_idx = {os.path.join(d, img.name): i for i, img in enumerate(images)}
+
+        class LiveFile:
+            def __init__(self, f, idx):
+                self._f = f
+                self._idx = idx
+
+            def read(self, n=-1):
+                state["reads"] += 1
+                if state["reads"] % op["advance_every"] == 0:
+                    for _ in range(op["steps"]):
+                        if sim.step():
+                            ctx.fault("live_read")
+                data = self._f.read(n)
+                if n is not None and n > 0 and len(data) < n and op.get("after_short"):
+                    # adversarial but legal schedule: the writers append right after the reader came back short
+                    for _ in range(op["after_short"]):
+                        if sim.step():
+                            ctx.fault("live_read")
+                            ctx.probe("append_right_after_short_read")
+                    if op.get("fill_after_short"):
+                        # ... and this file's writer is fast: by the reader's next call the rest of the block and another
+                        # block of the same size are there (a complete read that starts in the middle of a block)
+                        target = sim.bytes_written[self._idx] + (n - len(data)) + n * op["fill_after_short"]
+                        for _ in range(80):
+                            if sim.bytes_written[self._idx] >= target or not sim.step():
+                                break
+                            ctx.fault("live_read")
+                        ctx.probe("file_filled_after_short_read")
+                return data
+
+            def __enter__(self):
+                return self
+
+            def __exit__(self, *a):
+                state["close_len"][self._idx] = sim.bytes_written[self._idx]
+                self._f.close()
+                return False
+
+            def __getattr__(self, name):
+                return getattr(self._f, name)
+
+        def sim_open(path, mode="r", *a, **k):
+            f = seams.real_open(path, mode, *a, **k)
+            idx = name_to_idx.get(os.path.normpath(path))
+            if idx is None or "b" not in mode:
+                return f
+            state["open_len"].setdefault(idx, sim.bytes_written[idx])
+            return LiveFile(f, idx)
+
+        import pyerrors.input.openQCD as oq
+        import pyerrors.input.misc as im
+        out = run.call_reader(kind, p, d, call, ctx, extra_patches=[(oq, "open", sim_open), (im, "open", sim_open)])
+        ctx.sim_time = sim.now
+        ctx.compared += 1
+        if out[0] == "raise":
+            ctx.probe("reader_raised")
+            ctx.sig(comp, "live", "raised")
+            return
+        names = kind.rep_names(p, call)
+        got = out[1]
+        anyobs = got[sorted(got)[0]]
+        counts = {}
+        for i, nm in names.items():
+            if nm not in anyobs.names:
+                ctx.violation("c18.wrong_numbers", comp, "live", "replica %s missing from the result" % nm)
+                return
+            counts[i] = len(list(anyobs.idl[nm]))
+        for i, img in enumerate(images):
+            lo = max(0, img.complete_before(state["open_len"].get(i, 0)))
+            hi = img.complete_before(state["close_len"].get(i, sim.bytes_written[i]))
+            if counts[i] > hi:
+                ctx.violation("c18.partial_record", comp, "live", "replica file %d: %d records returned, only %d were complete when the file was closed" % (i, counts[i], hi))
+                return
+            if counts[i] < lo:
+                ctx.violation("c18.dropped_complete", comp, "live", "replica file %d: %d records returned, %d were complete when it was opened" % (i, counts[i], lo))
+                return
+            if hi > lo:
+                ctx.probe("live_file_grew_during_read")
+        exp = kind.expect(p, models, counts, call)
+        if exp == "undefined":
+            return
+        if exp is None:
+            ctx.violation("c18.should_raise", comp, "live", "result returned for counts %r for which no valid result exists" % (counts,))
+            return
+        dd = _match(exp, got)
+        ctx.compared += nvals
+        if dd is not None:
+            ctx.violation("c18.wrong_numbers", comp, "live", "%s: %s" % dd)
+        else:
+            ctx.probe("reader_returned_prefix")
+        ctx.sig(comp, "live", "prefix", "grew" if ctx.probes.get("live_file_grew_during_read") else "static")
+
+    for rnd_i in range(op.get("rounds", 1)):
+        if rnd_i:
+            if not sim.step():          # leave the state the previous round started from
                 break
-    if any(not os.path.exists(sim.path(i)) for i in range(len(images))):
-        ctx.probe("live_before_all_files_exist")
-        return
-    state = {"reads": 0, "open_len": {}, "close_len": {}}
-    name_to_idx = {os.path.join(d, img.name): i for i, img in enumerate(images)}
-
-    class LiveFile:
-        def __init__(self, f, idx):
-            self._f = f
-            self._idx = idx
-
-        def read(self, n=-1):
-            state["reads"] += 1
-            if state["reads"] % op["advance_every"] == 0:
-                for _ in range(op["steps"]):
-                    if sim.step():
-                        ctx.fault("live_read")
-            data = self._f.read(n)
-            if n is not None and n > 0 and len(data) < n and op.get("after_short"):
-                # adversarial but legal schedule: the writers append right after the reader came back short
-                for _ in range(op["after_short"]):
-                    if sim.step():
-                        ctx.fault("live_read")
-                        ctx.probe("append_right_after_short_read")
-            return data
-
-        def __enter__(self):
-            return self
-
-        def __exit__(self, *a):
-            state["close_len"][self._idx] = sim.bytes_written[self._idx]
-            self._f.close()
-            return False
-
-        def __getattr__(self, name):
-            return getattr(self._f, name)
-
-    def sim_open(path, mode="r", *a, **k):
-        f = seams.real_open(path, mode, *a, **k)
-        idx = name_to_idx.get(os.path.normpath(path))
-        if idx is None or "b" not in mode:
-            return f
-        state["open_len"].setdefault(idx, sim.bytes_written[idx])
-        return LiveFile(f, idx)
-
-    import pyerrors.input.openQCD as oq
-    import pyerrors.input.misc as im
-    out = run.call_reader(kind, p, d, call, ctx, extra_patches=[(oq, "open", sim_open), (im, "open", sim_open)])
-    ctx.sim_time = sim.now
-    ctx.compared += 1
-    if out[0] == "raise":
-        ctx.probe("reader_raised")
-        ctx.sig(comp, "live", "raised")
-        return
-    names = kind.rep_names(p, call)
-    got = out[1]
-    anyobs = got[sorted(got)[0]]
-    counts = {}
-    for i, nm in names.items():
-        if nm not in anyobs.names:
-            ctx.violation("c18.wrong_numbers", comp, "live", "replica %s missing from the result" % nm)
-            return
-        counts[i] = len(list(anyobs.idl[nm]))
-    for i, img in enumerate(images):
-        lo = max(0, img.complete_before(state["open_len"].get(i, 0)))
-        hi = img.complete_before(state["close_len"].get(i, sim.bytes_written[i]))
-        if counts[i] > hi:
-            ctx.violation("c18.partial_record", comp, "live", "replica file %d: %d records returned, only %d were complete when the file was closed" % (i, counts[i], hi))
-            return
-        if counts[i] < lo:
-            ctx.violation("c18.dropped_complete", comp, "live", "replica file %d: %d records returned, %d were complete when it was opened" % (i, counts[i], lo))
-            return
-        if hi > lo:
-            ctx.probe("live_file_grew_during_read")
-    exp = kind.expect(p, models, counts, call)
-    if exp == "undefined":
-        return
-    if exp is None:
-        ctx.violation("c18.should_raise", comp, "live", "result returned for counts %r for which no valid result exists" % (counts,))
-        return
-    dd = _match(exp, got)
-    ctx.compared += nvals
-    if dd is not None:
-        ctx.violation("c18.wrong_numbers", comp, "live", "%s: %s" % dd)
-    else:
-        ctx.probe("reader_returned_prefix")
-    ctx.sig(comp, "live", "prefix", "grew" if ctx.probes.get("live_file_grew_during_read") else "static")
+            ctx.probe("live_further_round")
+        live_round()
+        if ctx.violations:
+            break
 
 
 def execute_hadrons(plan, ctx, kind, p, call, d, comp, budget):
